@@ -440,6 +440,48 @@ def F25_import_aliases_exported_dict():
             "detail": f"history changed by writing to the exported dict: {changed}; committed iterations lost by clearing an exported list: {shrunk}"}
 
 
+def F26_single_array_blob_raises():
+    """documented configuration (docs/examples/blobs.md, "single array blob"): blobs_dtype=(float, n_dim), likelihood returns (logl, array)"""
+    from tempest import Sampler
+    bad = []
+    for dt, blob in (((float, 2), lambda x: x ** 2), ((float, (2, 2)), lambda x: np.outer(x, x))):
+        np.random.seed(1)
+        try:
+            with warnings.catch_warnings(), contextlib.redirect_stdout(io.StringIO()), contextlib.redirect_stderr(io.StringIO()):
+                warnings.simplefilter("ignore")
+                s = Sampler(lambda u: 6 * u - 3, lambda x: (-0.5 * float(x @ x), blob(x)), 2, n_particles=16, clustering=False, blobs_dtype=dt)
+                s.run(48, progress=False)
+                out = s.posterior(return_blobs=True)
+            x, b = out[0], out[-1]
+            if len(b) != len(x) or not np.allclose(np.asarray(b).reshape(len(x), -1), np.array([np.ravel(blob(r)) for r in x])):
+                bad.append(f"blobs_dtype={dt}: returned blobs are not the blobs of the returned samples")
+        except Exception as e:  # noqa
+            bad.append(f"blobs_dtype={dt}: raised {type(e).__name__}: {str(e)[:120]}")
+    return {"fails": bool(bad), "detail": bad}
+
+
+def F28_trim_weights_ess_one():
+    """trim_weights(ess=1.0): the untrimmed set must be returned (rounding made the loop run off the percentile grid)"""
+    from tempest.tools import trim_weights
+    bad = []
+    for w in ([0.75, 0.4375, 0.1875], [0.8125, 0.1875, 0.625, 0.75]):
+        try:
+            s_, wt = trim_weights(np.arange(len(w)), np.array(w, dtype=float), ess=1.0, bins=1000)
+            if len(s_) != len(w) or abs(float(np.sum(wt)) - 1.0) > 1e-12:
+                bad.append(f"weights {w}: returned {len(s_)} of {len(w)} samples, sum {float(np.sum(wt))!r}")
+        except Exception as e:  # noqa
+            bad.append(f"weights {w}: raised {type(e).__name__}: {str(e)[:100]}")
+    return {"fails": bool(bad), "detail": bad}
+
+
+# ---------------------------------------------------------------- C08 / F27
+def F27_sm_save_temp_suffix_in_place():
+    """StateManager.save_state('x.temp') over a complete file, writing process killed right after the open / mid-pickle:
+    with the temporary name `with_suffix(".temp")` (== the final name) the survivor finds a truncated, unloadable file"""
+    from . import c08
+    return c08.sm_temp_suffix_finding()
+
+
 ALL = {k: v for k, v in list(globals().items()) if k[:1] == "F" and callable(v)}
 
 if __name__ == "__main__":
